@@ -1,7 +1,7 @@
 """C08 - nested histories partition the tree and reference each other correctly.
 
 Domain   generated trees with nested histories placed by running create at generated directories in generated order
-         (siblings, chains to depth 4+, sibling names that are prefixes of each other, children created after the
+         (siblings, chains to depth 4+, sibling names that are prefixes of each other, sibling histories in equally named folders, children created after the
          parent had already recorded their files), tree edits, then folder-mode or -sf creates at any history
          root, with and without -n.  Every create of the history is observed.
 Oracle   the harness's tree model assigns each entry to the deepest enclosing history root: per written manifest
@@ -30,7 +30,7 @@ RULE = (
 )
 ASSUMPTIONS = ["only default ignore patterns", "mtime order is used as the witness of write order (tmpfs, ns timestamps)"]
 BUDGET = {"quick": (220, 4), "thorough": (48000, 16)}
-REQUIRED = ["siblings", "chain>=2", "prefix_siblings", "sf", "-n", "child_after_parent", "ignored_child", "ignored_child_after_sf", "sf_into_ignored_child", "sf_far_apart_histories"]
+REQUIRED = ["siblings", "chain>=2", "prefix_siblings", "sf", "-n", "child_after_parent", "ignored_child", "ignored_child_after_sf", "sf_into_ignored_child", "sf_far_apart_histories", "same_named_sibling_histories"]
 
 CFG = {
     "kinds": ["create"] * 7 + ["create_sf"] * 3 + ["put_new", "put_new", "overwrite", "mkdir", "mv", "rm"],
@@ -45,7 +45,7 @@ CFG = {
 
 @st.composite
 def _scn(draw):
-    tree_extra = draw(st.sampled_from([None, "prefix", "prefix", "deep", "deep"]))
+    tree_extra = draw(st.sampled_from([None, "prefix", "prefix", "deep", "deep", "samename"]))
     scn = draw(st.one_of(hist.scenarios(CFG), hist.scenarios(dict(CFG, final=["create_sf"]))))
     used = hist.top_names_used(scn)
     if tree_extra == "prefix":
@@ -55,8 +55,18 @@ def _scn(draw):
     elif tree_extra == "deep" and "d1" not in used:
         scn["tree"]["d1"] = {"d2": {"d3": {"d4": {"leaf": "x"}, "f3": "y"}, "f2": "z"}, "f1": "w"}
     pre = []
+    if tree_extra == "samename" and not ({"cardA", "cardB", "clips"} & used):
+        # sibling histories whose root folders carry the same name (so do their manifests, written in the same second)
+        scn["tree"]["cardA"] = {"clips": {"a.mov": "from card A"}}
+        scn["tree"]["cardB"] = {"clips": {"b.mov": "from card B", "more": {"c.mov": "c"}}}
+        if draw(st.booleans()):
+            scn["tree"]["clips"] = {"top.mov": "a third folder called clips"}
+        names = [d for d in ("cardA/clips", "cardB/clips", "clips") if d.split("/")[0] in scn["tree"]]
+        for d in draw(st.permutations(names)):
+            pre.append({"op": "create", "root": d, "formats": draw(gen.formats(2)), "flags": []})
+        scn["samename"] = True
     dirs = [d for d in gen.tree_dirs(scn["tree"]) if isinstance(_node(scn["tree"], d), dict)]
-    if tree_extra and dirs:
+    if tree_extra in ("prefix", "deep") and dirs:
         picks = draw(st.lists(st.sampled_from(dirs), min_size=1, max_size=min(4, len(dirs)), unique=True))
         for d in picks:
             pre.append({"op": "create", "root": d, "formats": draw(gen.formats(2)), "flags": []})
@@ -277,6 +287,8 @@ def run_case(scn, ctx):
                 nontrivial |= bool(observe(w, scn, step, before, res, ctx, None))
                 if scn.get("far_apart_sf") and step is scn["steps"][-1]:
                     ctx.event("sf_far_apart_histories")
+                if scn.get("samename") and step["op"] == "create" and step["root"] == "":
+                    ctx.event("same_named_sibling_histories")
             else:
                 hist.apply_step(w, scn, step)
         ctx.mark_nontrivial(nontrivial)
